@@ -33,9 +33,10 @@ class DecoratorHelper:
 		join_args = decorator[args_begin + 1:len(decorator) - 1]
 		args: dict[str, str] = {}
 		for index, arg in enumerate(BlockParser.break_separator(join_args, ',')):
-			if arg.count('=') > 0:
-				label, *remain = arg.split('=')
-				args[label] = '='.join(remain)
+			# XXX ラベル付き引数は`名前=値`の形式のみ。引用符・括弧内の`=`や比較演算子(`==`)はラベルの区切りではない
+			matches = re.fullmatch(r'(\w+)=(?!=)(.*)', arg, flags=re.DOTALL)
+			if matches:
+				args[matches[1]] = matches[2]
 			else:
 				args[str(index)] = arg
 
